@@ -26,3 +26,21 @@ def WellScoped (s : Scope) (p : Pattern) : Prop :=
   (∀ q, s.terminator = some q → Bound q (actAliases s))
 
 end Hpl
+
+namespace Hpl
+/-! ### executable decider (equivalence with `WellScoped` proved in `Hpl/Props/C02.lean`) -/
+def boundB (e : Event) (avail : List String) : Bool :=
+  e.freeRefs.all (fun r => avail.contains r) && e.aliases.all (fun a => !avail.contains a)
+
+def patternScopedB (p : Pattern) (avail : List String) : Bool :=
+  match p.kind, p.trigger with
+  | .absence, _ | .existence, _ => boundB p.behaviour avail
+  | .requirement, some t => boundB p.behaviour avail && boundB t (p.behaviour.aliases ++ avail)
+  | .response, some t | .prevention, some t => boundB t avail && boundB p.behaviour (t.aliases ++ avail)
+  | _, none => false
+
+def wellScopedB (s : Scope) (p : Pattern) : Bool :=
+  (match s.activator with | some a => a.freeRefs.isEmpty | none => true) &&
+  patternScopedB p (actAliases s) &&
+  (match s.terminator with | some q => boundB q (actAliases s) | none => true)
+end Hpl
